@@ -34,6 +34,7 @@ type Case struct {
 	Seed   int64    `json:"seed"`
 	N      int      `json:"n"`      // number of entries (blob: bytes)
 	KSpace int      `json:"kspace"` // keys drawn from [0, kspace)
+	KPad   int      `json:"kpad"`   // > 0: keys carry this many extra bytes
 	VMin   int      `json:"vmin"`
 	VMax   int      `json:"vmax"`
 	Bigs   []int    `json:"bigs"`   // sizes of a few very large values placed at random keys of the content
@@ -54,6 +55,9 @@ type Obs struct {
 	N      []int   `json:"n"`   // items per level (route 0)
 	Dec    [][]int `json:"dec"` // per level: ids of the items after which the splitter reports a boundary
 	MaxVal int     `json:"maxval"`
+	MergeHeights []int `json:"merge_heights"` // height of the right-hand tree of every mergetail / mergehead route that ran
+	// blobs: the node returned by BlobBuilder.Chunk is not the node at the returned address
+	NodeAddrMismatch bool `json:"node_addr_mismatch"`
 }
 
 var ctx = context.Background()
@@ -63,12 +67,22 @@ type kv struct {
 	v []byte
 }
 
-var kd = val.NewTupleDescriptor(val.Type{Enc: val.Int64Enc})
+var kdPlain = val.NewTupleDescriptor(val.Type{Enc: val.Int64Enc})
+var kdWide = val.NewTupleDescriptor(val.Type{Enc: val.Int64Enc}, val.Type{Enc: val.ByteStringEnc})
+var kd = kdPlain
+var keyPad = 0 // > 0: wide keys (int, pad bytes): small fan-out on every level, tall trees with few rows
 var vd = val.NewTupleDescriptor(val.Type{Enc: val.ByteStringEnc, Nullable: true})
 
 func mkKey(ns tree.NodeStore, k int64) val.Tuple {
 	b := val.NewTupleBuilder(kd, ns)
 	b.PutInt64(0, k)
+	if keyPad > 0 {
+		p := make([]byte, keyPad)
+		for i := range p {
+			p[i] = byte(k*7 + int64(i)*13)
+		}
+		b.PutByteString(1, p)
+	}
 	t, err := b.Build(ctx, ns.Pool())
 	if err != nil {
 		panic(err)
@@ -270,6 +284,10 @@ func genContent(c Case, r *rand.Rand) []kv {
 }
 
 func runMap(c Case) (any, error) {
+	kd, keyPad = kdPlain, 0
+	if c.KPad > 0 {
+		kd, keyPad = kdWide, c.KPad
+	}
 	r := rand.New(rand.NewSource(c.Seed))
 	ns := tree.NewTestNodeStore()
 	content := genContent(c, r)
@@ -429,6 +447,54 @@ func runMap(c Case) (any, error) {
 			}
 			sort.Slice(start, func(i, j int) bool { return start[i].k < start[j].k })
 			m = applyBatches(ns, bulk(ns, start), es, r, 1+len(es))
+		case "mergetail", "mergehead":
+			// right's change is confined to the LAST (FIRST) leaf of the base, the base ends (starts) exactly on a
+			// leaf boundary, left appends (prepends) rows beyond it; the merge result is the content
+			m = base
+			name = name + "-skipped"
+			if len(content) >= 12 {
+				tail := name == "mergetail-skipped"
+				mi := len(content)*3/5 + r.Intn(1+len(content)/4)
+				if !tail {
+					mi = len(content)/8 + r.Intn(1+len(content)/4)
+				}
+				tp := append([]kv{}, content...)
+				tp[mi] = kv{tp[mi].k, valFor(tp[mi].k, c.Seed, c.VMin+r.Intn(c.VMax-c.VMin+1), 21)}
+				lvp := walk(ns, bulk(ns, tp).Node())
+				pos, s0, e0 := 0, -1, -1
+				for _, nd := range lvp[0] {
+					if mi >= pos && mi < pos+nd.Count() {
+						s0, e0 = pos, pos+nd.Count()
+					}
+					pos += nd.Count()
+				}
+				var bse, lft, rgt []kv
+				ok := false
+				if tail && e0 > 0 && e0 < len(content) {
+					bse = append(bse, tp[:e0]...)
+					lft = append(append(lft, bse...), content[e0:]...)
+					rgt = append(rgt, bse...)
+					rgt[mi] = content[mi]
+					ok = true
+				} else if !tail && s0 > 0 {
+					bse = append(bse, tp[s0:]...)
+					lft = append(append(lft, content[:s0]...), bse...)
+					rgt = append(rgt, bse...)
+					rgt[mi-s0] = content[mi]
+					ok = true
+				}
+				if ok {
+					var err error
+					m, _, err = prolly.MergeMaps(ctx, bulk(ns, lft), bulk(ns, rgt), bulk(ns, bse), func(l, r tree.Diff) (tree.Diff, bool) {
+						panic("unexpected collision")
+					})
+					if err != nil {
+						return nil, err
+					}
+					name = name[:len(name)-len("-skipped")]
+					o.MergeHeights = append(o.MergeHeights, bulk(ns, rgt).Height())
+				}
+			}
 		case "merge": // three-way merge whose result is the content
 			var bse, lft, rgt []kv
 			for _, e := range content {
@@ -594,12 +660,24 @@ func runBlob(c Case) (any, error) {
 	data := make([]byte, c.N)
 	r.Read(data)
 	var o Obs
+	// the observed root is the ADDRESS BlobBuilder.Chunk returns (what callers store in the row), the tree is
+	// walked from that address; the returned node is only cross-checked against it
 	build := func(bb *tree.BlobBuilder, d []byte) (*tree.Node, error) {
 		bb.SetNodeStore(ns)
 		bb.Init(len(d))
-		nd, _, err := bb.Chunk(ctx, bytes.NewReader(d))
+		nd, h, err := bb.Chunk(ctx, bytes.NewReader(d))
 		bb.Reset()
-		return nd, err
+		if err != nil || nd == nil {
+			return nd, err
+		}
+		top, err := ns.Read(ctx, h)
+		if err != nil {
+			return nil, err
+		}
+		if nd.HashOf() != h {
+			o.NodeAddrMismatch = true
+		}
+		return top, nil
 	}
 	shared, err := tree.NewBlobBuilder(c.Chunk)
 	if err != nil {
@@ -614,7 +692,8 @@ func runBlob(c Case) (any, error) {
 			}
 		case "reuse": // same builder after blobs of other sizes (deeper and shallower)
 			bb = shared
-			for _, n := range []int{c.N*3 + c.Chunk*c.Chunk/20 + 7, 1 + r.Intn(c.N+1), c.Chunk} {
+			// first a taller blob (at least two address levels), then shallower ones, then the target
+			for _, n := range []int{c.N*3 + 2*c.Chunk*(c.Chunk/20) + 7, c.Chunk + 1 + r.Intn(c.Chunk*(c.Chunk/20)), 1 + r.Intn(c.N+1), c.Chunk} {
 				other := make([]byte, n)
 				r.Read(other)
 				if _, err := build(bb, other); err != nil {
@@ -633,9 +712,11 @@ func runBlob(c Case) (any, error) {
 			ro.Root = hashInts(nd.HashOf())
 			lv := walk(ns, nd)
 			for l, nodes := range lv {
-				var lens []int
+				lens := []int{}
 				for _, n := range nodes {
-					if l == 0 {
+					if n.Count() == 0 {
+						lens = append(lens, 0)
+					} else if l == 0 && n.IsLeaf() {
 						lens = append(lens, len(n.GetValue(0)))
 					} else {
 						lens = append(lens, n.Count())
